@@ -5,6 +5,7 @@ import (
 	"encoding/json"
 	"flag"
 	"fmt"
+	"golang.org/x/tools/go/ssa"
 	"os"
 	"os/exec"
 	"path/filepath"
@@ -106,7 +107,7 @@ func loadBaseline(id string) map[string]bool {
 		if l == "" || strings.HasPrefix(l, "#") {
 			continue
 		}
-		if strings.HasPrefix(l, "~open") {
+		if strings.HasPrefix(l, "~") {
 			continue
 		}
 		if i := strings.Index(l, "\t"); i >= 0 {
@@ -131,6 +132,83 @@ func loadBaselineOpen(id string) map[string]bool {
 		}
 	}
 	return out
+}
+
+// loadBaselineShapes: "~shape <unit> <signature>" lines: what the contracts of a unit were written against.
+func loadBaselineShapes(id string) map[string]string {
+	out := map[string]string{}
+	data, err := os.ReadFile(filepath.Join(verifRoot, "baseline", id+".txt"))
+	if err != nil {
+		return out
+	}
+	for _, l := range strings.Split(string(data), "\n") {
+		if strings.HasPrefix(l, "~shape\t") {
+			f := strings.Split(l, "\t")
+			if len(f) == 3 {
+				out[f[1]] = f[2]
+			}
+		}
+	}
+	return out
+}
+
+// unitShape: the number of variables a closure captures and, per loop, the number of loop-carried variables (header phis).
+// A contract can only speak about the variables that existed when it was written: when a closure captures a NEW variable
+// (a value computed outside and carried in) or a loop carries a NEW variable from one iteration to the next, no precondition
+// or invariant constrains it, and a failed proof says nothing about the code. Such a unit is undecided, not violated.
+func unitShape(fn *ssa.Function) (fv int, phis []int) {
+	if fn == nil {
+		return 0, nil
+	}
+	fv = len(fn.FreeVars)
+	for _, h := range loopHeaders(fn) {
+		n := 0
+		for _, in := range h.Instrs {
+			if _, ok := in.(*ssa.Phi); ok {
+				n++
+			}
+		}
+		phis = append(phis, n)
+	}
+	return
+}
+
+func shapeString(fn *ssa.Function) string {
+	fv, phis := unitShape(fn)
+	var ps []string
+	for _, n := range phis {
+		ps = append(ps, strconv.Itoa(n))
+	}
+	return fmt.Sprintf("fv=%d;phis=%s", fv, strings.Join(ps, ","))
+}
+
+// shapeDrift compares the current shape of a unit with the one its contract was written against.
+func shapeDrift(base string, fn *ssa.Function) string {
+	var bfv int
+	var bph string
+	if _, err := fmt.Sscanf(base, "fv=%d;phis=%s", &bfv, &bph); err != nil && !strings.HasPrefix(base, "fv=") {
+		return ""
+	}
+	fv, phis := unitShape(fn)
+	if fv > bfv {
+		return fmt.Sprintf("the closure captures %d variable(s), its contract was written for %d: nothing constrains the new one", fv, bfv)
+	}
+	var bp []int
+	for _, x := range strings.Split(bph, ",") {
+		if x != "" {
+			n, _ := strconv.Atoi(x)
+			bp = append(bp, n)
+		}
+	}
+	if len(phis) > len(bp) {
+		return fmt.Sprintf("the function has %d loop(s), its contract was written for %d", len(phis), len(bp))
+	}
+	for i := range phis {
+		if phis[i] > bp[i] {
+			return fmt.Sprintf("loop #%d carries %d variable(s) from one iteration to the next, its invariants were written for %d: nothing constrains the new one", i+1, phis[i], bp[i])
+		}
+	}
+	return ""
 }
 
 // unitKindOf: "<unit>/<kind>" of a safety obligation name "<unit>/<kind>#<n>".
@@ -206,11 +284,22 @@ func cmdCheck(args []string) int {
 	var jobs []*job
 	var units []*Unit
 	var unitErrs []string
+	shapes := loadBaselineShapes(id)
+	curShapes := map[string]string{}
 	for _, name := range p.Units {
 		un, err := e.verifyUnit(name)
 		if err != nil {
 			unitErrs = append(unitErrs, err.Error())
 			continue
+		}
+		if un.fn != nil {
+			curShapes[name] = shapeString(un.fn)
+			if base, ok := shapes[name]; ok && !*writeBaseline {
+				if d := shapeDrift(base, un.fn); d != "" {
+					unitErrs = append(unitErrs, un.name+": "+d)
+					continue
+				}
+			}
 		}
 		units = append(units, un)
 		for _, o := range un.obls {
@@ -239,11 +328,25 @@ func cmdCheck(args []string) int {
 				again = append(again, j)
 			}
 		}
-		if len(again) > 0 && len(again) <= 12 {
+		if len(again) > 0 && len(again) <= 16 {
 			for _, j := range again {
 				j.queries = 0
 			}
 			solveAll(again, prelude, filepath.Join(outDir, "vc_retry"), timeout*3, seed+1, 4)
+			// ... and what is still undecided once more, one at a time (a machine that runs several checks at once can starve
+			// the one solver that proves an obligation)
+			var still []*job
+			for _, j := range again {
+				if j.res.Status == "unknown" {
+					still = append(still, j)
+				}
+			}
+			if len(still) > 0 && len(still) <= 4 {
+				for _, j := range still {
+					j.queries = 0
+				}
+				solveAll(still, prelude, filepath.Join(outDir, "vc_retry"), timeout*3, seed+2, 1)
+			}
 		}
 	}
 
@@ -483,6 +586,12 @@ func cmdCheck(args []string) int {
 		}
 		for _, j := range failed {
 			fmt.Fprintf(&b, "~open\t%s\n", j.obl.Name)
+		}
+		// the shape each contract was written against (captured variables, loop-carried variables)
+		for _, name := range p.Units {
+			if sh, ok := curShapes[name]; ok {
+				fmt.Fprintf(&b, "~shape\t%s\t%s\n", name, sh)
+			}
 		}
 		os.MkdirAll(filepath.Join(verifRoot, "baseline"), 0o755)
 		os.WriteFile(filepath.Join(verifRoot, "baseline", id+".txt"), []byte(b.String()), 0o644)
